@@ -9,7 +9,11 @@
 (*           pixels; 8-connectivity only (as the kernels)                  *)
 (* variables alg ("sparse" | "splat"), k (next list position), pp (the     *)
 (*           persistent row-above pointer), labels (inout, POISON), S, Z   *)
-(*           (the caller's scratch for splat: (NS+2)x(NF+2), POISON), pc   *)
+(*           (the caller's scratch for splat: (NS+ZPI+2)x(NF+ZPJ+2), any   *)
+(*           previous content = POISON; ZPI, ZPJ >= 0 model a caller that  *)
+(*           passes ni, nj larger than the frame, as a reused work buffer  *)
+(*           for a bigger detector does: the stride changes, the cells     *)
+(*           read must still all have been zeroed first), pc               *)
 (*           oob (an index left its array), rdpoison (an undefined cell    *)
 (*           was read)                                                     *)
 (* actions   SpSkip / SpFirst / SpRow0 / SpNoRowAbove / SpWalk (branches   *)
@@ -24,7 +28,7 @@
 (***************************************************************************)
 EXTENDS Dset, Json
 
-CONSTANTS NS, NF, CAP, ALGS, BUG_SPLAT, EmitOn
+CONSTANTS NS, NF, CAP, ALGS, BUG_SPLAT, EmitOn, ZPI, ZPJ
 POISON == -7
 N == NS * NF
 Px == 0..(N - 1)
@@ -44,8 +48,8 @@ ii(e) == Row(px[e + 1])
 jj(e) == ColOf(px[e + 1])
 above(e) == tern[px[e + 1]] = 2
 
-JD == NF + 2
-ZN == (NS + 2) * (NF + 2)
+JD == NF + 2 + ZPJ
+ZN == (NS + 2 + ZPI) * JD
 ZPos(e) == (ii(e) + 1) * JD + (jj(e) + 1)
 
 Init == /\ tern \in [Px -> {0, 1, 2}]
@@ -191,5 +195,6 @@ Numbering == Done => LET C == [e \in AboveE |-> MinOf(Reach({PixAtF[e]}))]
 Emit == (Done /\ EmitOn) =>
           PrintT("@@" \o ToJson([ns |-> NS, nf |-> NF, alg |-> alg,
                                  tern |-> [p \in 1..N |-> tern[p - 1]],
-                                 labels |-> [e \in 1..nnz |-> labels[e - 1]], np |-> np]))
+                                 labels |-> [e \in 1..nnz |-> labels[e - 1]], np |-> np,
+                                 zpi |-> ZPI, zpj |-> ZPJ]))
 =============================================================================
